@@ -179,6 +179,13 @@ def gen_extreme(tier, rng):
                 v = V(rng.choice(nums), rng.choice(nums), rng.choice(nums), rng.choice(pool_tags), rng.choice(BUILDS))
             l.append(v)
             if rng.random() < 0.2: l.append(V(v[0], v[1], v[2], v[3], rng.choice(BUILDS)))     # duplicate up to build metadata
+            if v[3] and rng.random() < 0.6:
+                # several prereleases of one tuple, and its release: the extreme must be chosen by the tag
+                l.append(V(v[0], v[1], v[2], rng.choice(pool_tags[3:]), rng.choice(BUILDS)))
+                if rng.random() < 0.5: l.append(V(v[0], v[1], v[2], (), rng.choice(BUILDS)))
+        rng.shuffle(l)
+        if False:
+            pass
         ev = [enc_version(v) for v in l]
         e = E_parse(t)
         lists += 1
